@@ -76,6 +76,7 @@ type adgram struct {
 	Dp   string `json:"dp"`
 	Path apath  `json:"path"`
 	Pl   string `json:"pl"`
+	Ext  string `json:"ext"` // extension header chain: "e2e" | "hbh" | "optBefore" | "optAfter"
 	// authenticator as found on the wire
 	Auth  string `json:"auth"`  // "absent" | "ok" | "bad" | "malformed"
 	Aspi  string `json:"aspi"`  // "client" | "server" | "other" | "-"
@@ -302,6 +303,7 @@ type pktSpec struct {
 	l4               string // "udp" | "echo" | "tr" | "scmpx" | "l4x"
 	payload          []byte // UDP payload / SCMP message body (after type, code, checksum) / raw L4
 	auth             *authSpec
+	ext              string // "" / "e2e" | "hbh" | "optBefore" | "optAfter"
 	flow             uint32
 	tc               uint8
 }
@@ -336,6 +338,18 @@ func build(s *pktSpec, rng *rand.Rand) []byte {
 		ul.SrcPort, ul.DstPort = s.sport, s.dport
 		ul.SetNetworkLayerForChecksum(&sl)
 		must(ul.SerializeTo(buf, serOpts))
+		var unk *slayers.EndToEndOption
+		if s.ext == "optBefore" || s.ext == "optAfter" {
+			// an option of a type nobody knows (not padding, authenticator or receive timestamp)
+			unk = &slayers.EndToEndOption{OptType: slayers.OptionType(200 + rng.Intn(40)), OptData: randBytes(rng, 1+rng.Intn(9))}
+		}
+		if s.auth == nil && unk != nil {
+			e2e := slayers.EndToEndExtn{}
+			e2e.NextHdr = slayers.L4UDP
+			e2e.Options = []*slayers.EndToEndOption{unk}
+			must(e2e.SerializeTo(buf, serOpts))
+			sl.NextHdr = slayers.End2EndClass
+		}
 		if s.auth != nil {
 			opt := &slayers.EndToEndOption{OptType: slayers.OptTypeAuthenticator, OptData: make([]byte, optDataLen),
 				OptAlign: [2]uint8{4, 2}}
@@ -351,6 +365,11 @@ func build(s *pktSpec, rng *rand.Rand) []byte {
 			e2e := slayers.EndToEndExtn{}
 			e2e.NextHdr = slayers.L4UDP
 			e2e.Options = []*slayers.EndToEndOption{opt}
+			if s.ext == "optBefore" {
+				e2e.Options = []*slayers.EndToEndOption{unk, opt}
+			} else if s.ext == "optAfter" {
+				e2e.Options = []*slayers.EndToEndOption{opt, unk}
+			}
 			must(e2e.SerializeTo(buf, serOpts))
 			sl.NextHdr = slayers.End2EndClass
 		}
@@ -414,10 +433,18 @@ func layoutOf(w []byte) layout {
 		l.hasE2E = true
 		extLen := (int(w[l.hdrLen+1]) + 1) * 4
 		l.l4Off = l.hdrLen + extLen
-		// options start at +2; the authenticator (alignment 4n+2) comes first in
-		// every packet this harness and the repository build
-		if slayers.OptionType(w[l.hdrLen+2]) == slayers.OptTypeAuthenticator && int(w[l.hdrLen+3]) == optDataLen {
-			l.optData = l.hdrLen + 4
+		for o := l.hdrLen + 2; o < l.l4Off; {
+			t := slayers.OptionType(w[o])
+			if t == slayers.OptTypePad1 {
+				o++
+				continue
+			}
+			n := int(w[o+1])
+			if t == slayers.OptTypeAuthenticator && n == optDataLen {
+				l.optData = o + 2
+				break
+			}
+			o += 2 + n
 		}
 	}
 	return l
@@ -499,6 +526,17 @@ func region(w []byte, class string) []int {
 }
 
 func flip(w []byte, bit int) { w[bit/8] ^= 1 << uint(bit%8) }
+
+// puts a hop-by-hop extension header (one PadN option) in front of whatever
+// follows the SCION header
+func insertHBH(w []byte) []byte {
+	hl := int(w[5]) * 4
+	r := append([]byte{}, w[:hl]...)
+	r = append(r, w[4], 0, byte(slayers.OptTypePadN), 0) // NextHdr, ExtLen = 0 (4 bytes), PadN of 2 bytes
+	r[4] = byte(slayers.HopByHopClass)
+	binary.BigEndian.PutUint16(r[6:], binary.BigEndian.Uint16(w[6:])+4)
+	return append(r, w[hl:]...)
+}
 
 // removes the end-to-end extension header of a SCION/UDP packet
 func stripE2E(w []byte) []byte {
@@ -646,7 +684,7 @@ func (m portMap) label(p uint16) string {
 
 // projects a serialized SCION packet to model units
 func (w *world) project(mode string, wire []byte, pm portMap) (adgram, *parsed) {
-	d := adgram{L4: "undec", Sia: "?", Dia: "?", Sh: "?", Dh: "?", Sp: "-", Dp: "-", Path: emptyPath, Pl: "-",
+	d := adgram{L4: "undec", Sia: "?", Dia: "?", Sh: "?", Dh: "?", Sp: "-", Dp: "-", Path: emptyPath, Pl: "-", Ext: "e2e",
 		Auth: "absent", Aspi: "-", Aalgo: "-", To: "-", From: "-", Ul: "-"}
 	p := parse(wire)
 	if !p.ok {
@@ -677,6 +715,28 @@ func (w *world) project(mode string, wire []byte, pm portMap) (adgram, *parsed) 
 		d.L4 = "l4x"
 	}
 	d.Auth, d.Aspi, d.Aalgo, _ = p.authState(w)
+	d.Ext = "e2e"
+	for _, lt := range p.layers {
+		if lt == slayers.LayerTypeHopByHopExtn {
+			d.Ext = "hbh"
+		}
+	}
+	if p.hasE2E && d.Ext == "e2e" {
+		seenAuth := false
+		for _, o := range p.e2e.Options {
+			switch o.OptType {
+			case slayers.OptTypePad1, slayers.OptTypePadN, optTS:
+			case slayers.OptTypeAuthenticator:
+				seenAuth = true
+			default:
+				if seenAuth {
+					d.Ext = "optAfter"
+				} else {
+					d.Ext = "optBefore"
+				}
+			}
+		}
+	}
 	if p.hasE2E {
 		if _, err := p.e2e.FindOption(optTS); err == nil {
 			d.TsOpt = true
